@@ -412,9 +412,11 @@ Qed.
 
 Lemma nmem_false k l : nmem k l = false <-> ~ In k l.
 Proof.
-  rewrite <- nmem_true. destruct (nmem k l); split; intros H; try reflexivity; try discriminate.
-  - intros H'; discriminate.
+  rewrite <- nmem_true. destruct (nmem k l); split; intros H.
+  - discriminate H.
   - exfalso; apply H; reflexivity.
+  - intros H'; discriminate H'.
+  - reflexivity.
 Qed.
 
 Lemma in_nremove1 k x l : In x (nremove1 k l) -> In x l.
